@@ -54,11 +54,10 @@ macro_rules! harnesses {
     };
 }
 
+pub mod sock;
+pub mod p06;
 pub mod p18;
 
+pub mod gen;
 #[cfg(not(kani))]
-pub fn registry() -> Vec<(&'static str, fn(&mut Nd))> {
-    let mut v = Vec::new();
-    v.extend_from_slice(p18::LIST);
-    v
-}
+pub use gen::registry;
